@@ -39,6 +39,42 @@ func init() {
 		"fmt.Print": func(x *Exec, fr *frame, fn *ssa.Function, a []Value) Value {
 			return Tuple{x.ts.BV(64, 0), Iface{}}
 		},
+		"strconv.FormatFloat": func(x *Exec, fr *frame, fn *ssa.Function, a []Value) Value {
+			f := a[0].(*Term)
+			if !f.IsConst() {
+				x.unsupported("model limit: strconv.FormatFloat of a symbolic value")
+			}
+			fmtc := byte(cint(x, a[1], "format"))
+			return x.ts.StrOf(strconv.FormatFloat(math.Float64frombits(f.C), fmtc, cint(x, a[2], "precision"), cint(x, a[3], "bitSize")))
+		},
+		"(*sync.Pool).Get": func(x *Exec, fr *frame, fn *ssa.Function, a []Value) Value {
+			p := a[0].(Ptr)
+			key := fmt.Sprintf("pool:%p", p.C)
+			if l, ok := x.side[key].([]Value); ok && len(l) > 0 {
+				v := l[len(l)-1]
+				x.side[key] = l[:len(l)-1]
+				return v
+			}
+			sv := (*p.C).(StructV)
+			newf := sv[len(sv)-1]
+			if c, ok := newf.(*Closure); ok && c != nil {
+				return x.callValue(c, nil, fr)
+			}
+			return Iface{}
+		},
+		"(*sync.Pool).Put": func(x *Exec, fr *frame, fn *ssa.Function, a []Value) Value {
+			p := a[0].(Ptr)
+			key := fmt.Sprintf("pool:%p", p.C)
+			l, _ := x.side[key].([]Value)
+			x.side[key] = append(l, a[1])
+			return nil
+		},
+		"(*sync.Mutex).Lock":      func(x *Exec, fr *frame, fn *ssa.Function, a []Value) Value { return nil },
+		"(*sync.Mutex).Unlock":    func(x *Exec, fr *frame, fn *ssa.Function, a []Value) Value { return nil },
+		"(*sync.RWMutex).Lock":    func(x *Exec, fr *frame, fn *ssa.Function, a []Value) Value { return nil },
+		"(*sync.RWMutex).Unlock":  func(x *Exec, fr *frame, fn *ssa.Function, a []Value) Value { return nil },
+		"(*sync.RWMutex).RLock":   func(x *Exec, fr *frame, fn *ssa.Function, a []Value) Value { return nil },
+		"(*sync.RWMutex).RUnlock": func(x *Exec, fr *frame, fn *ssa.Function, a []Value) Value { return nil },
 		"time.After": func(x *Exec, fr *frame, fn *ssa.Function, a []Value) Value { return ChanV{} },
 		"time.Sleep": func(x *Exec, fr *frame, fn *ssa.Function, a []Value) Value { return nil },
 		"strconv.FormatBool": func(x *Exec, fr *frame, fn *ssa.Function, a []Value) Value {
